@@ -151,8 +151,13 @@ pub fn run(ctx: &Ctx) -> Outcome {
 async fn one_history(ctx: &Ctx, out: &mut Outcome, rng: &mut Rng, idx: u64) {
     let local: Arc<dyn MetadataClient> = Arc::new(LocalMetadataClient::new());
     let store = Arc::new(object_store::memory::InMemory::new());
+    // every other history: the catalog object is shared with other writers - every 2nd / 3rd / 5th conditional
+    // update of this client loses its race (somebody else's write landed first) and is repeated
+    let racing = rng.chance(1, 2);
+    let race_store = Arc::new(crate::util::RaceLoserStore { inner: store.clone(), every: *rng.pick(&[2u64, 3, 5]), counter: 0.into(), lost: 0.into() });
+    let s3_store: Arc<dyn object_store::ObjectStore> = if racing { race_store.clone() } else { store.clone() };
     let s3: Arc<dyn MetadataClient> = Arc::new(ObjectStoreMetadataClient::new(
-        store.clone(),
+        s3_store,
         ObjectStoreMetadataConfig::default(),
     ));
     let mut model: BTreeMap<String, (M, u32)> = BTreeMap::new();
@@ -376,6 +381,10 @@ async fn one_history(ctx: &Ctx, out: &mut Outcome, rng: &mut Rng, idx: u64) {
                 Err(e) => out.violation(&format!("C07/{}/get_chunk-error", name), &e.to_string(), json!({"history_index": idx})),
             }
         }
+    }
+    if racing {
+        out.count("histories_with_lost_catalog_races", 1);
+        out.count("catalog_updates_that_lost_their_race_and_were_repeated", race_store.lost.load(std::sync::atomic::Ordering::SeqCst));
     }
     // a fresh object-store client must see the same persisted state
     let fresh = ObjectStoreMetadataClient::new(store, ObjectStoreMetadataConfig::default());
